@@ -267,12 +267,33 @@ func runWorker(simBin string, env []string, prop, tier string, seed uint64, idx,
 	}
 	go func() { done <- cmd.Wait() }()
 	var err error
-	select {
-	case err = <-done:
-	case <-time.After(budget*3 + 10*time.Minute):
-		cmd.Process.Kill()
-		<-done
-		return workerResult{idx: idx, code: -2, out: out}
+	// livelock watch: while an in-process run is under way the worker keeps
+	// <out>/current.json.running; a run that lasts longer than the limit in real
+	// time, without the fake-time watchdog having fired, has a goroutine that
+	// spins without ever blocking. current.json holds its scenario.
+	limit := 150 * time.Second
+	if v, perr := time.ParseDuration(os.Getenv("VERIF_LIVELOCK_LIMIT")); perr == nil && v > 0 {
+		limit = v
+	}
+	hard := time.After(budget*3 + 10*time.Minute)
+	tick := time.NewTicker(2 * time.Second)
+	defer tick.Stop()
+wait:
+	for {
+		select {
+		case err = <-done:
+			break wait
+		case <-tick.C:
+			if fi, serr := os.Stat(filepath.Join(out, "current.json.running")); serr == nil && time.Since(fi.ModTime()) > limit {
+				cmd.Process.Kill()
+				<-done
+				return workerResult{idx: idx, code: -3, out: out}
+			}
+		case <-hard:
+			cmd.Process.Kill()
+			<-done
+			return workerResult{idx: idx, code: -2, out: out}
+		}
 	}
 	wr := workerResult{idx: idx, out: out}
 	if err != nil {
@@ -297,6 +318,9 @@ func replay(simBin string, env []string, prop, tier, path, out string) (class st
 	wr := runWorker(simBin, env, prop, tier, 1, 0, 1, 5*time.Minute, out, "-verif.replay="+path)
 	b, _ := os.ReadFile(filepath.Join(out, "log"))
 	log = string(b)
+	if wr.code == -3 {
+		return prop + "/hang", false, log + "\n(livelock: the run did not finish in real time and fake time never reached the watchdog)"
+	}
 	for _, l := range strings.Split(log, "\n") {
 		if strings.HasPrefix(l, "REPLAY-VIOLATION ") {
 			return strings.TrimPrefix(l, "REPLAY-VIOLATION "), false, log
@@ -427,7 +451,10 @@ func main() {
 		if r.stats == nil {
 			// crashed before writing stats?
 			cur := filepath.Join(r.out, "current.json")
-			if _, err := os.Stat(cur); err == nil && r.code == 2 {
+			if _, err := os.Stat(cur); err == nil && r.code == -3 {
+				// livelock: the scenario under way is the violation
+				cands = append(cands, cand{cur, prop + "/hang"})
+			} else if err == nil && r.code == 2 {
 				cands = append(cands, cand{cur, prop + "/crash"})
 			} else {
 				hard = append(hard, fmt.Sprintf("worker %d exited %d without stats (see %s/log)", r.idx, r.code, r.out))
@@ -477,7 +504,10 @@ func main() {
 		for _, v := range s.Violations {
 			cands = append(cands, cand{v.File, v.Class})
 		}
-		if r.code != 0 && len(s.Violations) == 0 {
+		if r.code == -3 {
+			// livelock: the scenario under way is the violation
+			cands = append(cands, cand{filepath.Join(r.out, "current.json"), prop + "/hang"})
+		} else if r.code != 0 && len(s.Violations) == 0 {
 			cur := filepath.Join(r.out, "current.json")
 			// a Go panic or fatal error exits with status 2; a worker killed from
 			// outside (signal) is trouble with the machinery, not a crash of the code under test
@@ -716,7 +746,11 @@ func determinism(simBin string, env []string, bdir, tier string, seed uint64) {
 		}
 	}
 	out := make([]string, len(jobs))
-	sem := make(chan struct{}, 16)
+	par := 16
+	if v, err := strconv.Atoi(os.Getenv("VERIF_DETERMINISM_PAR")); err == nil && v > 0 {
+		par = v
+	}
+	sem := make(chan struct{}, par)
 	var wg sync.WaitGroup
 	for i, j := range jobs {
 		wg.Add(1)
